@@ -1,0 +1,27 @@
+//go:build verif
+
+package protocol
+
+import "bytes"
+
+// Accessors to the package's sync.Pools, compiled only with the "verif" build
+// tag. A verification harness uses them to put objects in chosen states into
+// the pools and to observe which objects the library takes out again.
+
+// VerifBufferPoolPut puts b into the pool of bytes.Buffers used by MarshalPacked.
+func VerifBufferPoolPut(b *bytes.Buffer) { bufferPool.Put(b) }
+
+// VerifBufferPoolGet takes a buffer out of that pool.
+func VerifBufferPoolGet() *bytes.Buffer { return bufferPool.Get().(*bytes.Buffer) }
+
+// VerifCompressorPoolPut puts c into the pool of gzip compressors.
+func VerifCompressorPoolPut(c *GzipCompressor) { compressorPool.Put(c) }
+
+// VerifCompressorPoolGet takes a compressor out of that pool.
+func VerifCompressorPoolGet() *GzipCompressor { return compressorPool.Get().(*GzipCompressor) }
+
+// VerifChunkReaderPoolPut puts r into the pool of readers used by GetChunk.
+func VerifChunkReaderPoolPut(r *ChunkReader) { chunkReaderPool.Put(r) }
+
+// VerifChunkReaderPoolGet takes a reader out of that pool.
+func VerifChunkReaderPoolGet() *ChunkReader { return chunkReaderPool.Get().(*ChunkReader) }
